@@ -193,10 +193,14 @@ class Parser:
     def parse(self) -> Program:
         """Parse the entire program."""
         body: List[Node] = []
-        while not self._is_at_end():
-            stmt = self._parse_statement()
-            if stmt is not None:
-                body.append(stmt)
+        try:
+            while not self._is_at_end():
+                stmt = self._parse_statement()
+                if stmt is not None:
+                    body.append(stmt)
+        except RecursionError:
+            # Recursive descent: nesting deeper than the host stack allows
+            raise self._error("Program is nested too deeply")
         return Program(body)
 
     # ---- Statements ----
